@@ -48,11 +48,12 @@ def tlc_behaviours(kind, weighted, n=3, depth=8, num=40, seed=1, invalid_every=4
     return out, {"generated": len(lines), "distinct": len(out), "wall": res["wall"]}
 
 
-def _md(rng, p=0.5):
+def _md(rng, p=0.5, hyper=False):
     if rng.random() < p:
         return {}
-    keys = rng.sample(["a", "b"], rng.randint(1, 2))
-    return {k: rng.choice(["0", "1"]) for k in keys}
+    pool = ["a", "b", "weighted"] if hyper else ["a", "b"]
+    keys = rng.sample(pool, rng.randint(1, 2))
+    return {k: rng.choice(["0", "1", "1", "2"]) for k in keys}
 
 
 def py_behaviour(kind, weighted, n, length, rng, xs=None):
@@ -123,9 +124,9 @@ def py_behaviour(kind, weighted, n, length, rng, xs=None):
             its = [dict({"n": x}, **mdarg()) for x in rng.sample(u, rng.randint(1, 2))]
             o = {"op": "add_nodes", "items": its}
         elif r < 0.83:
-            o = {"op": "set_attr_node", "n": rng.choice(u), "f": rng.choice(["a", "b"]), "v": rng.choice(["0", "1"])}
+            o = {"op": "set_attr_node", "n": rng.choice(u), "f": rng.choice(["a", "b"]), "v": rng.choice(["0", "1", "2"])}
         elif r < 0.87:
-            o = {"op": "set_attr_edge", "k": key(), "f": rng.choice(["a", "b"]), "v": rng.choice(["0", "1"])}
+            o = {"op": "set_attr_edge", "k": key(), "f": rng.choice(["a", "b"]), "v": rng.choice(["0", "1", "2"])}
         elif r < 0.89:
             o = {"op": "del_attr_node", "n": rng.choice(u), "f": rng.choice(["a", "b"])}
         elif r < 0.91:
@@ -135,9 +136,10 @@ def py_behaviour(kind, weighted, n, length, rng, xs=None):
         elif r < 0.95:
             o = {"op": "set_edge_md", "k": key(), "md": _md(rng, 0.2)}
         elif r < 0.96:
-            o = {"op": "set_h_md", "md": _md(rng, 0.2)}
+            o = {"op": "set_h_md", "md": _md(rng, 0.2, hyper=True)}
         elif r < 0.98:
-            o = {"op": "set_attr_h", "f": rng.choice(["a", "b"]), "v": rng.choice(["0", "1"])}
+            # "weighted" is also a key the class itself keeps in the hypergraph-level metadata
+            o = {"op": "set_attr_h", "f": rng.choice(["a", "b", "weighted"]), "v": rng.choice(["0", "1"])}
         else:
             o = {"op": "clear"}
         ops.append(o)
@@ -154,7 +156,7 @@ class Replayer:
     """
 
     def __init__(self, kind, weighted, n, family="ident", seed=0, full=True, cc=False,
-                 copies=False, queries=True, plan=None, exhaustive_derive=True):
+                 copies=False, queries=True, plan=None, exhaustive_derive=True, query_prob=0.8):
         self.kind, self.weighted, self.n = kind, weighted, n
         self.rng = random.Random(seed)
         self.b = Binding(kind, LABEL_FAMILIES[family](n), self.rng)
@@ -163,6 +165,9 @@ class Replayer:
         self.full, self.cc, self.copies, self.queries = full, cc, copies, queries
         self.plan = plan or {}
         self.exhaustive_derive = exhaustive_derive
+        # the query block is skipped after some calls: a query can repair (or fill) a cache, and a fault
+        # that needs two mutations without a query in between would otherwise never show
+        self.query_prob = query_prob
         self.objs = {}
         self.events = []
         self.skipped = 0
@@ -175,7 +180,8 @@ class Replayer:
         ev = {"obj": oid, "op": op, "ok": ok, "st": self._snap()}
         if more:
             ev.update(more)
-        if self.queries if queries is None else queries:
+        want = self.queries if queries is None else queries
+        if want and (op["op"] in ("new", "copy") or self.rng.random() < self.query_prob):
             ev["q"] = self.b.queries(self.objs[oid], self.universe, full=self.full, cc=self.cc)
         self.events.append(ev)
         return ev
@@ -213,11 +219,28 @@ class Replayer:
             ev = D.saveload_event(self, oid, binary=rng.random() < 0.5)
             more = {"loaded": ev["loaded"]} if "loaded" in ev else None
             self._log(oid, ev["op"], ev["ok"], queries=False, more=more)
+            # sometimes the history continues on the LOADED object (second-generation round trips)
+            if ev.get("_obj") is not None and rng.random() < 0.35:
+                self.objs[oid] = ev["_obj"]
+                self._log(oid, {"op": "adopt"}, True, queries=False)
         if "hash" in p and rng.random() < p["hash"]:
             ev = D.hash_event(self, oid)
             # digests are only comparable under one label map: tag them with the family
             more = {"digest": self.family + ":" + ev["digest"], "lab": self.family} if "digest" in ev else None
             self._log(oid, ev["op"], ev["ok"], queries=False, more=more)
+
+    def run_twins(self, ops):
+        """the same calls on a weighted (object 0) and an unweighted (object 1) twin, with a digest after
+        every call: contents that differ in weightedness only must hash differently (C07)"""
+        for oid, w in ((0, True), (1, False)):
+            self.objs[oid] = self.b.new(w)
+            self._log(oid, {"op": "new", "weighted": w}, True, queries=False)
+        for op in ops:
+            for oid in (0, 1):
+                import copy as _c
+                if self.call(oid, _c.deepcopy(op)) is not None:
+                    self.extras(oid)
+        return self.events
 
     def run(self, ops):
         from .binding import UNSUPPORTED
